@@ -82,6 +82,15 @@ def gen_T12():
     need(len(empt) == 1, '_makeReply: empty-message text changed')
     strips = [n for n in ast.walk(mk) if isinstance(n, ast.Call) and isinstance(n.func, ast.Attribute) and n.func.attr == 'strip']
     need(len(strips) == 1 and ast.unparse(strips[0]) == "s.strip('\\x01')", '_makeReply: strip changed')
+    # ---- Misc.more: pops from the end, in order; `more <nick>` takes copies of the messages ----
+    mm = ast.unparse(find_def(tree('plugins/Misc/plugin.py'), 'more', 'Misc'))
+    for piece in ('private, L = irc._mores[nick]', 'irc._mores[userHostmask] = [ircmsgs.IrcMsg(msg=m) for m in L]',
+                  'L = irc._mores[userHostmask]', 'msgs = L[-number:]', 'msgs.reverse()', 'L[-number:] = []',
+                  'for msg in msgs:\n            irc.queueMsg(msg)'):
+        need(piece in mm, 'Misc.more changed: missing `%s`' % piece.split('\n')[0])
+    tk = ast.unparse(find_def(tree('src/irclib.py'), 'takeMsg', 'Irc'))
+    need("if not world.testing:\n                assert not msg.tagged('emulatedEcho')\n            msg.tag('emulatedEcho', True)" in tk,
+         'Irc.takeMsg: emulated echo tagging changed')
     # ---- utils/str.py ----
     u = tree('src/utils/str.py')
     sb = find_def(u, 'splitBytes')
